@@ -235,7 +235,13 @@ impl Expression {
                     }
                     _ => return Err(EvaluateTypeError::InvalidModule),
                 };
-                Ok(ty.to_lvalue())
+                // An element of a value is a value - only objects give access to memory of their own
+                match array_tyl_nomod {
+                    TypeLayer::Array(_, _) | TypeLayer::Vector(_, _) | TypeLayer::Matrix(_, _, _) => {
+                        Ok(ExpressionType(ty, array_ty.1))
+                    }
+                    _ => Ok(ty.to_lvalue()),
+                }
             }
             Expression::StructMember(ref expr, id, member_index) => {
                 let expr_type = expr.get_type(module)?;
